@@ -51,6 +51,8 @@ def enumerate_cases(tier, scope):
                 for is_async in (False, True):
                     prog = {'steps': [gen.S([], first, is_async), gen.S([['yield']] if is_async else [], last, is_async)]}
                     yield {'program': prog, 'resumes': [res]}
+                    if first[0] == 'wait' and res in ('v', None):
+                        yield {'program': prog, 'resumes': [res], 'enter_resumes': {'0': 'early' if res is None else None}}
 
 
 @st.composite
@@ -80,14 +82,19 @@ def _cases(draw, tier):
                 ret = ['continue', nxt, draw(ARGS), draw(KWARGS)]
         steps.append({'async': is_async, 'body': body, 'ret': ret})
     resumes = [draw(RESUMES) for _ in range(nwaits)]
-    return {'program': {'steps': steps}, 'resumes': resumes}
+    case = {'program': {'steps': steps}, 'resumes': resumes}
+    if nwaits and draw(st.integers(0, 3)) == 0:
+        # an application-defined WAITING state that resumes itself while it is being entered
+        case['enter_resumes'] = {str(i): draw(st.sampled_from(['early', None, 0, {'__tuple__': [1]}])) for i in range(nwaits) if draw(st.booleans())}
+    return case
 
 
 def strategy(tier):
     return _cases(tier)
 
 
-def model(program, resumes):
+def model(program, resumes, enter_resumes=None):
+    enter_resumes = enter_resumes or {}
     idx, args, kwargs = 0, [], {}
     calls = []
     nwait = 0
@@ -99,6 +106,8 @@ def model(program, resumes):
             idx, args, kwargs = ret[1], ret[2] or [], ret[3] or {}
         elif kind == 'wait':
             value = resumes[nwait] if nwait < len(resumes) else restore.DEFAULT_RESUMES[nwait]
+            if str(nwait) in enter_resumes:
+                value = enter_resumes[str(nwait)]  # resumed while the state was being entered: that wake-up is the first
             nwait += 1
             idx, kwargs = ret[1], {}
             args = [] if value == NOVALUE else [value]
@@ -163,9 +172,16 @@ def execute(case):
     program = case['program']
     resumes = list(case.get('resumes', []))
     full_resumes = resumes + restore.DEFAULT_RESUMES[len(resumes) :]
-    exp_calls, exp_outcome = model(program, resumes)
+    enter_resumes = case.get('enter_resumes') or {}
+    exp_calls, exp_outcome = model(program, resumes, enter_resumes)
+    if enter_resumes:
+        program = dict(program, eager_waiting=True)
     run_case = {'program': program, 'schedule': []}
-    ref = restore.run_reference(run_case, medium='pickle', resumes=full_resumes, hook_ckpts=HOOK_CKPTS)
+
+    def plan_enter_resumes(ex):
+        ex.world.extra['resume_on_enter'] = {ex.proc.pid: {int(k): val for k, val in enter_resumes.items()}}
+
+    ref = restore.run_reference(run_case, medium='pickle', resumes=full_resumes, hook_ckpts=HOOK_CKPTS, before_complete=plan_enter_resumes if enter_resumes else None)
     if 'construct_error' in ref:
         return {'violations': [{'clause': 'construct', 'detail': repr(ref['construct_error'])}], 'nontrivial': False, 'classes': []}
     got = _norm_calls(ref['steps'])
@@ -175,7 +191,7 @@ def execute(case):
     _check_outcome(ref['summary'], exp_outcome, v, 'uninterrupted')
     n_restores = 0
     n_hook = 0
-    if not viol:
+    if not viol and not enter_resumes:
         for ckpt in ref['checkpoints']:
             if 'error' in ckpt:
                 v('save-failed', f"state entry #{ckpt['index']} ({ckpt['state']}): {ckpt['error']!r}")
@@ -210,6 +226,8 @@ def execute(case):
         classes.append('restores')
     if n_hook:
         classes.append('hook-time-checkpoint')
+    if enter_resumes:
+        classes.append('resumed-while-entering')
     classes.append('end:' + exp_outcome['state'])
     return {
         'violations': viol,
